@@ -189,6 +189,7 @@ fn check(mode: &str, obs: &Obs, rr: &RunResult) -> Vec<Violation> {
         "C11" => vs.extend(obs.captures()),
         "C12" => {
             vs.extend(obs.snapshots());
+            vs.extend(obs.outcome());
         }
         "C13" => {
             vs.extend(obs.handler());
